@@ -50,6 +50,7 @@ GoodForm(name, form) ==
     [] name \in {"map", "and_then"} -> form \in {"str", "path"}
     [] name = "flatten" -> form = "word"
     [] name = "rename_all" -> form = "rule"
+    [] name = "bound" -> form = "preds"                  \* a string holding where-predicates
     [] name = "attributes" -> form \in {"words", "empty"}
     [] name = "forward_attrs" -> form \in {"word", "words", "empty"}
     [] name = "from_ident" -> TRUE                       \* only the name is looked at (outer_from.rs:63)
@@ -140,6 +141,7 @@ ContainerItem(derive, s, it, pos) ==
   ELSE IF ~Knows(derive, n) THEN R(s, one("unknown"))
   ELSE CASE n = "default" -> IF s.default THEN R(s, one("dup")) ELSE IF bad THEN R(s, one("form")) ELSE R([s EXCEPT !.default = TRUE], <<>>)
          [] n = "rename_all" -> IF bad THEN R(s, one("form")) ELSE R(s, <<>>)                       \* may be given again: overwritten
+         [] n = "bound" -> IF bad THEN R(s, one("form")) ELSE R(s, <<>>)                            \* likewise
          [] n \in {"map", "and_then"} ->
               IF s.xform = n THEN R(s, one("dup")) ELSE IF s.xform # "" THEN R(s, one("map+and_then"))
               ELSE IF bad THEN R(s, one("form")) ELSE R([s EXCEPT !.xform = n], <<>>)
@@ -181,7 +183,9 @@ AddContainer ==
 ToBody == phase = "container" /\ phase' = "body1" /\ UNCHANGED <<derive, shape, cont, f1, f2, v1, v2>>
 
 IsAttrsShape(sh) == sh \in {"named_attrs", "named_attrs_with"}      \* the magic `attrs` member, plain or with its own `with = ..`
-HasFields == shape = "named" \/ IsAttrsShape(shape)
+\* field 1 is the first field of the struct - or, for an enum whose first variant is `V1 { a: u8 }`, that variant's field
+VariantField == shape = "enum" /\ v1.style = "struct"
+HasFields == shape = "named" \/ IsAttrsShape(shape) \/ VariantField
 AddField1 ==
   /\ phase = "body1" /\ HasFields /\ Len(f1.items) < MaxField1
   /\ \E it \in FieldItems :
@@ -220,6 +224,7 @@ Spec == Init /\ [][Next]_vars
 
 \* members that exist in the body for this shape
 V1Style == v1.style
+V1Ok == v1.d = <<>> /\ f1.d = <<>>              \* the first variant was collected (its options and its field's options parsed)
 TupleN(st) == st \in {"tuple2", "tuple0"}          \* a tuple body FromMeta has no parser for: not exactly one field
 FieldOk(f) == f.d = <<>>
 
@@ -242,9 +247,10 @@ BodyDiags ==
     [] shape = "enum0" -> IF elem THEN <<Dg("body-unrepresentable", <<"body", 0>>)>> ELSE <<>>
     [] shape = "enum" ->
          IF elem THEN <<Dg("body-unrepresentable", <<"v1", 0>>)>> \o (IF v2.present THEN <<Dg("body-unrepresentable", <<"v2", 0>>)>> ELSE <<>>)   \* one per variant
-         ELSE v1.d \o v2.d
-              \o (IF v1.d = <<>> /\ TupleN(V1Style) /\ v1.s.skip # "true" THEN <<Dg("body-unrepresentable", <<"v1", 0>>)>> ELSE <<>>)   \* a skipped variant is never parsed
-              \o (LET w1 == v1.d = <<>> /\ v1.s.word = "true" w2 == v2.d = <<>> /\ v2.s.word = "true" IN
+         ELSE (IF v1.d # <<>> THEN v1.d ELSE f1.d)      \* from_variant: the variant's own options, `?`, then its fields (a skipped variant's too)
+              \o v2.d
+              \o (IF V1Ok /\ TupleN(V1Style) /\ v1.s.skip # "true" THEN <<Dg("body-unrepresentable", <<"v1", 0>>)>> ELSE <<>>)   \* a skipped variant is never parsed
+              \o (LET w1 == V1Ok /\ v1.s.word = "true" w2 == v2.d = <<>> /\ v2.s.word = "true" IN
                   (IF (w1 \/ w2) /\ cont.s.from_word THEN <<Dg("word+from_word", <<"c", 0>>)>> ELSE <<>>)
                   \o (IF w1 /\ w2 THEN <<Dg("multi-word", <<"v1", 0>>), Dg("multi-word", <<"v2", 0>>)>> ELSE <<>>))
 
@@ -323,6 +329,7 @@ BodyViolations ==
     [] shape = "enum" ->
          IF elem THEN {Viol("body-unrepresentable", {<<"v1", 0>>, <<"v2", 0>>, <<"body", 0>>})}
          ELSE ElementViolations("v1", v1.items, VariantKnown, {}, V1Style) \cup ElementViolations("v2", v2.items, VariantKnown, {}, "unit")
+              \cup (IF V1Style = "struct" THEN ElementViolations("f1", f1.items, FieldKnown, {}, "unit") ELSE {})   \* options of a variant's field - skipped or not
               \cup (IF TupleN(V1Style) /\ ~(\E i \in 1..Len(v1.items) : /\ v1.items[i].name = "skip" /\ Truthy(v1.items[i].form)      \* the skip that takes effect says yes
                                                                      /\ \A j \in 1..(i-1) : ~(v1.items[j].name = "skip" /\ GoodForm("skip", v1.items[j].form)))
                     THEN {Viol("body-unrepresentable", {<<"v1", i>> : i \in AnyIx})} ELSE {})
@@ -345,7 +352,10 @@ ReportedScope ==
   IF shape = "union" THEN {v \in WholeViolations : v.rule = "union"}
   ELSE IF shape = "enum0" /\ derive \in ElementLevel THEN BodyViolations       \* whole-element verdicts come first
   ELSE IF ContainerViolations # {} THEN ContainerViolations
-  ELSE IF BodyViolations # {} THEN BodyViolations
+  ELSE IF BodyViolations # {}
+       THEN (IF shape = "enum" /\ derive \notin ElementLevel /\ ElementViolations("v1", v1.items, VariantKnown, {}, V1Style) # {}
+             THEN {v \in BodyViolations : \A p \in v.where : p[1] # "f1"}       \* a variant's fields are looked at once its own options are clean
+             ELSE BodyViolations)
   ELSE WholeViolations
 
 Covered(v, ds) == \E i \in 1..Len(ds) : ds[i].pos \in v.where
